@@ -275,6 +275,22 @@ func crashSig(stderr string) (sig, detail string) {
 	msg := stderr[m[4]:m[5]]
 	rest := stderr[m[1]:]
 	frame, owner := "", ""
+	if strings.Contains(msg, "all goroutines are asleep") {
+		// the runtime found every goroutine blocked for good (e.g. on a mutex that is never
+		// released): it is bcl's doing if some goroutine is blocked with a bcl frame innermost
+		for _, blk := range strings.Split(rest, "\n\n") {
+			for _, l := range strings.Split(blk, "\n") {
+				if strings.HasPrefix(l, "github.com/wkhere/bcl") {
+					if fm := reBclFrame.FindStringSubmatch(l); fm != nil {
+						return "crash:deadlock, all goroutines asleep@" + fm[1], "fatal error: all goroutines are asleep - deadlock! (blocked in " + fm[1] + ")"
+					}
+				}
+				if strings.HasPrefix(l, "verifharness/") {
+					break
+				}
+			}
+		}
+	}
 	if i := strings.Index(rest, "goroutine "); i >= 0 {
 		blk := rest[i:]
 		if j := strings.Index(blk, "\n\n"); j >= 0 {
